@@ -61,7 +61,8 @@ def conn_of(snap, cid):
 
 def case_of(tr, i, extra=None):
     e = tr.events[i]
-    d = {"event_index": i, "event": {k: (v if k != "frames" else [f.hex()[:120] for f in v]) for k, v in e.items() if k != "msg"},
+    d = {"event_index": i, "event": {k: ((v.hex() if isinstance(v, bytes) else v) if k != "frames" else [f.hex()[:120] for f in v])
+                                     for k, v in e.items() if k != "msg"},
          "history": [ev["ev"] + (":%d" % ev["cid"] if "cid" in ev else "") for ev in tr.events[:i + 1]][-12:],
          "cfg": {k: tr.cfg[k] for k in ("cea", "cer", "dwa", "idle", "wakeup", "rsize")}}
     if extra:
@@ -105,6 +106,24 @@ def c06(tr, viol):
                         if any(h == fr["hbh"] and ee == fr["e2e"] for (_, h, ee) in o["delivered"]):
                             viol("ignored-before-handshake", case_of(tr, i), "delivered to an application",
                                  what="a request received before the capabilities exchange succeeded reached an application")
+        # every capabilities-exchange message the node writes carries ITS identity and ALL its application ids
+        for cid, ms in o["sends"].items():
+            for s in ms:
+                ce = s.get("ce")
+                if s["cmd"] == "CE" and ce is not None:
+                    want_auth = sorted({a["id"] for a in tr.cfg["apps"] if a["auth"]})
+                    want_acct = sorted({a["id"] for a in tr.cfg["apps"] if a["acct"]})
+                    bad = []
+                    if ce["origin_host"] != tr.cfg["host"] or ce["origin_realm"] != tr.cfg["realm"]:
+                        bad.append("identity")
+                    if ce["auth"] != want_auth or ce["acct"] != want_acct:
+                        bad.append("application ids")
+                    if ce["vendor_id"] is None or not ce["product_name"] or ce["host_ip"] != ["10.0.0.1"]:
+                        bad.append("vendor / product / addresses")
+                    if bad:
+                        viol("ce-advertises-node", case_of(tr, i), {k: ce[k] for k in ("origin_host", "auth", "acct", "vendor_id", "product_name", "host_ip")},
+                             {"origin_host": tr.cfg["host"], "auth": want_auth, "acct": want_acct},
+                             what="a CER/CEA written by the node does not carry the node's " + ", ".join(bad))
         # nothing but CE is ever written on a connection whose handshake is not done
         for cid, ms in o["sends"].items():
             for s in ms:
@@ -309,7 +328,9 @@ def c11(tr, viol):
                     if cid in dwr_at:
                         viol("one-dwr", case_of(tr, i), s, what="a second DWR was sent while one is outstanding")
                     # the timer pass that reads the bytes runs before the reader thread sees them
-                    if now - prev_read.get(cid, 0) <= idle and e["ev"] != "tick":
+                    # (also for clock advances: if even at the END of the advance the idle timeout has not been exceeded,
+                    # no watchdog may have gone out during it)
+                    if now - prev_read.get(cid, 0) <= idle:
                         viol("no-dwr-while-busy", case_of(tr, i), s, what="DWR sent although traffic arrived within the idle timeout")
                     dwr_at[cid] = now
         if e["ev"] == "tick":
